@@ -24,7 +24,7 @@ type c15Case struct {
 var c15EditKinds = []string{"EP", "EC", "EL"}
 var c15Policies = []string{"adv", "sub", "eq", "back", "zero"} // sub: the mtime advances by a millisecond only (same second, usually the same length)
 var c15Other = []string{"TP", "TC", "TL", "TS", "TB", "IP", "IC", "FP", "BP", "FC", "FL", "UP", "EN", "ES"} // F*: front-matter-only edit, BP: body-only edit (mtime advances)
-var c15Renders = []string{"R1", "R2", "R3", "R4", "R5", "R6", "R7", "R8", "R9"} // R8 / R9: a page that is static except for a component shorthand tag, via Load().Render / Vue.Render // R7: Vue.Render of the page without any caller data // R5: Vue.RenderFragment of the page, R6: RenderString of a template that includes the component
+var c15Renders = []string{"R1", "R2", "R3", "R4", "R5", "R6", "R7", "R8", "R9"} // R8 / R9: a page that is static except for a component shorthand tag (every second version of it has none), via Load().Render / Vue.Render // R7: Vue.Render of the page without any caller data // R5: Vue.RenderFragment of the page, R6: RenderString of a template that includes the component
 
 func c15Alphabet() []string {
 	var a []string
@@ -287,6 +287,11 @@ func (w *c15World) write(file string, valid bool, policy string) {
 		bv = w.keepBV
 	}
 	data := c15Content(file, fv, bv, valid)
+	if file == c15Static && len(w.hist[file])%2 == 0 {
+		// the static page alternates between a version without any component tag (the first one) and one with the
+		// shorthand tag: an edit may be the one that introduces the page's first component tag, or removes its last
+		data = strings.Replace(data, `<site-note kind="info"></site-note>`, `<span>closed</span>`, 1)
+	}
 	_ = present
 	w.hist[file] = append(w.hist[file], c15Version{n: w.version, fv: fv, bv: bv, exists: true, valid: valid, data: data, mtime: mt})
 	w.mtime[file] = mt
